@@ -1,4 +1,5 @@
 import Prom.Lemmas.C08Aux
+import Prom.Lemmas.C08Local
 
 namespace Prom.C08
 open Prom
@@ -15,6 +16,8 @@ theorem accept_iff (defaults bs r : List UInt64) :
   · simp only [h, if_true, Option.some.injEq, true_and]; exact eq_comm
   · simp [h]
 
+/-- a configuration is rejected exactly when (after defaulting) it is not a strictly increasing
+    list of numbers -/
 theorem reject_iff (defaults bs : List UInt64) :
     checkAndAdjust defaults bs = none ↔ ¬ StrictIncr (effective defaults bs) := by
   unfold checkAndAdjust effective
@@ -106,6 +109,7 @@ theorem nan_in_no_bucket (bounds : List UInt64) (v : UInt64) (hv : f64IsNaN v = 
   | nil => rfl
   | cons b r ih => simp [findBucket, f64Le_nan_left b hv, ih]
 
+/-- a value above every bound falls in no explicit bucket -/
 theorem above_all_in_no_bucket (bounds : List UInt64) (v : UInt64)
     (hv : ∀ b ∈ bounds, f64Le v b = false) : findBucket bounds v = none := by
   induction bounds with
@@ -113,6 +117,7 @@ theorem above_all_in_no_bucket (bounds : List UInt64) (v : UInt64)
   | cons b r ih =>
     simp [findBucket, hv b (by simp), ih (fun x hx => hv x (by simp [hx]))]
 
+/-- a value in no explicit bucket changes no bucket count, only the sample count -/
 theorem no_bucket_leaves_counts (add) (h : Hist) (v : UInt64) (hv : findBucket h.bounds v = none) :
     (h.observe add v).counts = h.counts ∧ (h.observe add v).count = h.count + 1 := by
   simp [Hist.observe, hv]
@@ -121,6 +126,129 @@ theorem no_bucket_leaves_counts (add) (h : Hist) (v : UInt64) (hv : findBucket h
 theorem inf_bucket_is_count (add) (bounds obs : List UInt64) (hs : StrictIncr bounds) :
     (((Hist.new bounds).observeAll add obs).snap).count = obs.length :=
   (first_match_cumulative add bounds obs hs).1
+
+/-! ### local histograms bucket by the same rule -/
+
+/-- **local_same_rule** — a LOCAL histogram buckets values by the same rule. Observe `vs` on a
+    fresh local histogram created for `h` (same bounds, all-zero buckets) and flush it into `h`;
+    compare with observing `vs` directly on `h`. For EVERY `h` (no assumption on its bounds, on the
+    length of its count vector or on the values: NaN, infinities, … included) and every `add`:
+    the bounds, every per-bucket count and the sample count are equal.
+    The sums are what the two code paths compute, and they are bracketed differently:
+    directly `((h.sum + v₁) + v₂) + …`; through the local `h.sum + (((0 + v₁) + v₂) + …)` — and when
+    nothing was observed the flush is skipped altogether (`h.sum`, not `h.sum + 0`). They are NOT
+    claimed equal: f64 addition is not associative (see `local_same_sum_of_assoc`). -/
+theorem local_same_rule (add : UInt64 → UInt64 → UInt64) (h : Hist) (vs : List UInt64) :
+    let l := vs.foldl (LH.observe add h.bounds) (LH.empty h.bounds.length)
+    let viaLocal := h.absorb add l
+    let direct := h.observeAll add vs
+    viaLocal.bounds = direct.bounds ∧
+    viaLocal.counts = direct.counts ∧
+    viaLocal.count = direct.count ∧
+    viaLocal.sum = (if vs = [] then h.sum else add h.sum (vs.foldl add f64Zero)) ∧
+    direct.sum = vs.foldl add h.sum := by
+  intro l viaLocal direct
+  obtain ⟨lc, ln, ls⟩ := lh_observeAll add h.bounds vs (LH.empty h.bounds.length)
+  obtain ⟨db, dc, dn, ds⟩ := hist_observeAll add vs h
+  have lc' : l.counts = vs.foldl (bucketStep h.bounds) (List.replicate h.bounds.length 0) := lc
+  have ln' : l.count = vs.length := by
+    have : l.count = 0 + vs.length := ln
+    omega
+  have ls' : l.sum = vs.foldl add f64Zero := ls
+  cases vs with
+  | nil =>
+    have hv : viaLocal = h := by
+      show h.absorb add l = h
+      unfold Hist.absorb
+      simp [ln']
+    rw [hv]
+    exact ⟨rfl, rfl, rfl, by simp, rfl⟩
+  | cons v r =>
+    have hne : (l.count == 0) = false := by rw [ln']; simp
+    have hv : viaLocal = { h with counts := addCounts h.counts l.counts, count := h.count + l.count,
+                                  sum := add h.sum l.sum } := by
+      show h.absorb add l = _
+      unfold Hist.absorb
+      simp only [hne, Bool.false_eq_true, if_false]
+    refine ⟨by rw [hv]; exact db.symm, ?_, ?_, ?_, ds⟩
+    · rw [hv]
+      show addCounts h.counts l.counts = direct.counts
+      rw [lc', addCounts_foldl_bucketStep h.bounds h.counts _ _ (by simp), addCounts_replicate_zero]
+      exact dc.symm
+    · rw [hv]
+      show h.count + l.count = direct.count
+      rw [ln']; exact dn.symm
+    · rw [hv]
+      show add h.sum l.sum = _
+      rw [ls']; simp
+
+/-- if `add` were associative with `0` as a right unit (exact arithmetic; NOT IEEE addition, which
+    rounds, and for which `-0 + 0 = +0`), the two paths of `local_same_rule` would also agree on the
+    sum, i.e. the flushed histogram would be the directly observed one in every field -/
+theorem local_same_sum_of_assoc (add : UInt64 → UInt64 → UInt64)
+    (hassoc : ∀ a b c, add (add a b) c = add a (add b c)) (hzero : ∀ a, add a f64Zero = a)
+    (h : Hist) (vs : List UInt64) :
+    (h.absorb add (vs.foldl (LH.observe add h.bounds) (LH.empty h.bounds.length))).sum
+      = (h.observeAll add vs).sum := by
+  obtain ⟨_, _, _, hs, hd⟩ := local_same_rule add h vs
+  rw [hs, hd]
+  by_cases hv : vs = []
+  · subst hv; rfl
+  · simp only [hv, if_false]
+    rw [foldl_assoc add hassoc, hzero]
+
+/-- the sums of the two paths really differ for IEEE addition: shared sum 1e16, then 1.0 twice.
+    Directly `(1e16 + 1) + 1 = 1e16` (each step rounds back), through the local handle
+    `1e16 + ((0 + 1) + 1) = 1e16 + 2`, which is representable. So the hypothesis of
+    `local_same_sum_of_assoc` cannot be dropped. -/
+theorem local_sum_differs :
+    let h : Hist := { Hist.new [f64One] with sum := 0x4341C37937E08000 }
+    (h.absorb f64Add ([f64One, f64One].foldl (LH.observe f64Add h.bounds) (LH.empty h.bounds.length))).sum
+      ≠ (h.observeAll f64Add [f64One, f64One]).sum := by
+  decide +kernel
+
+/-- **local_same_rule (world form)** — the same through the handle operations of `HW.step`:
+    create a local handle (`lnew`; it gets index `w.locals.length`), observe `vs` on it, flush it
+    (or drop it, `drop_flushes_histogram`). The shared histogram ends as `Hist.absorb` of the local
+    that `local_same_rule` describes, hence with the bounds, bucket counts and sample count of
+    `w.shared.observeAll add vs`. -/
+theorem local_same_rule_world (add : UInt64 → UInt64 → UInt64) (w : HW) (vs : List UInt64) :
+    let k := w.locals.length
+    let w' := ((vs.map (HOp.lobs k)).foldl (HW.step add) (w.step add .lnew)).step add (.lflush k)
+    w'.shared = w.shared.absorb add (vs.foldl (LH.observe add w.shared.bounds) (LH.empty w.shared.bounds.length)) ∧
+    w'.shared.bounds = (w.shared.observeAll add vs).bounds ∧
+    w'.shared.counts = (w.shared.observeAll add vs).counts ∧
+    w'.shared.count = (w.shared.observeAll add vs).count := by
+  intro k w'
+  have hnew : (w.step add .lnew).locals[k]? = some (some (LH.empty w.shared.bounds.length)) := by
+    simp [HW.step, k]
+  obtain ⟨h1, h2⟩ := world_lobs_all add k vs (w.step add .lnew) _ hnew
+  have hs0 : (w.step add .lnew).shared = w.shared := rfl
+  rw [hs0] at h1 h2
+  have hshared : w'.shared = w.shared.absorb add
+      (vs.foldl (LH.observe add w.shared.bounds) (LH.empty w.shared.bounds.length)) := by
+    show (HW.step add _ (.lflush k)).shared = _
+    rw [world_lflush_shared add _ k _ h2, h1]
+  obtain ⟨hb, hc, hn, _, _⟩ := local_same_rule add w.shared vs
+  exact ⟨hshared, by rw [hshared]; exact hb, by rw [hshared]; exact hc, by rw [hshared]; exact hn⟩
+
+/-! ### the default buckets -/
+
+/-- **default_buckets_accepted** — an empty configuration selects `DEFAULT_BUCKETS` (the constant
+    regenerated from the Rust source) and that list is accepted unchanged: it is strictly
+    increasing, contains no NaN and has no trailing `+Inf` to drop. -/
+theorem default_buckets_accepted :
+    checkAndAdjust Gen.defaultBuckets [] = some Gen.defaultBuckets := by
+  decide +kernel
+
+/-- the defaults are a strictly increasing list of numbers (the accepted form of `accept_iff`) -/
+theorem default_buckets_strictIncr : StrictIncr Gen.defaultBuckets :=
+  accepted_strictIncr default_buckets_accepted
+
+/-- passing the defaults explicitly is the same as passing nothing -/
+theorem default_buckets_explicit :
+    checkAndAdjust Gen.defaultBuckets Gen.defaultBuckets = checkAndAdjust Gen.defaultBuckets [] := by
+  decide +kernel
 
 /-- non-vacuity: a non-trivial accepted configuration with a trailing +Inf, -Inf first,
     and a negative zero. -/
@@ -132,5 +260,14 @@ example : StrictIncr [f64NegInf, 0x8000000000000000, f64One] := by
 example : checkAndAdjust [] [f64One, 0x7FF8000000000000, 0x3FE0000000000000] = none := by decide
 example : checkAndAdjust [] [0x7FF8000000000001] = none := by decide
 example : checkAndAdjust [] [0x8000000000000000, 0] = none := by decide
+
+/-- non-vacuity for `local_same_rule`: bounds 0.5, 1.0; shared histogram already holding counts;
+    values 1.0, NaN, -Inf, 2.5, 0.5 through a local handle and directly give the same buckets -/
+example :
+    let h : Hist := { bounds := [0x3FE0000000000000, f64One], counts := [3, 4], count := 9, sum := f64One }
+    let vs : List UInt64 := [f64One, 0x7FF8000000000000, f64NegInf, 0x4004000000000000, 0x3FE0000000000000]
+    (h.absorb f64Add (vs.foldl (LH.observe f64Add h.bounds) (LH.empty h.bounds.length))).counts = [5, 5] ∧
+    (h.observeAll f64Add vs).counts = [5, 5] ∧ (h.observeAll f64Add vs).count = 14 := by
+  decide +kernel
 
 end Prom.C08
